@@ -344,8 +344,9 @@ def writeLongest (bt : BT) (bound order : Nat) (l : Longest) (mem : Nat) : Nat :
 
 def plainCfg : Config := ⟨Gen.C04.defaultMultiplierBits, 8, 8, 22⟩
 
-/-- the trie (search region at offset `start`) built from a bit table -/
-def ofTable (bt : BT) (bound order start : Nat) : Trie :=
+/-- the same by the `Write*` functions of `Model/Bits.lean` in the order of the real calls (kept as the reference
+formulation; `ofTable` below is the same memory as an OR of bit fields, see `C03TrieBuild.ofTable_eq_writes_example`) -/
+def ofTableWrites (bt : BT) (bound order start : Nat) : Trie :=
   let counts := countsOf bt bound order
   let shape := ofLayout 0 false false plainCfg counts start
   let mem := writeUnigrams bt bound shape.unigram 0
@@ -354,6 +355,82 @@ def ofTable (bt : BT) (bound order start : Nat) : Trie :=
     writeMiddle bt bound (mi.2 + 2) mi.1 inline mem) mem
   let mem := writeLongest bt bound order shape.longest mem
   { shape with mem := mem }
+
+/-! ### the built memory as an OR of bit fields -/
+
+/-- a bit field: offset, width, value -/
+structure Field where
+  off : Nat
+  len : Nat
+  val : Nat
+  deriving DecidableEq, Repr
+
+/-- memory obtained by OR-ing fields into `m` (what a sequence of `Write*` calls does to zero-initialised memory) -/
+def orFields (m : Nat) (fs : List Field) : Nat := fs.foldl (fun m f => m ||| (f.val <<< f.off)) m
+
+/-- an array of fixed-stride records: bit offset of record 0, stride, number of records, the slots `(offset, width)` inside a
+record, and what is written into slot `s` of record `i` (`none`: never written, stays zero) -/
+structure RegionSpec where
+  base : Nat
+  stride : Nat
+  nrec : Nat
+  slots : List (Nat × Nat)
+  val : Nat → Nat → Option Nat
+
+def RegionSpec.slotOff (R : RegionSpec) (s : Nat) : Nat := (R.slots.getD s (0, 0)).1
+def RegionSpec.slotLen (R : RegionSpec) (s : Nat) : Nat := (R.slots.getD s (0, 0)).2
+def RegionSpec.fieldAt (R : RegionSpec) (i s v : Nat) : Field := ⟨R.base + i * R.stride + R.slotOff s, R.slotLen s, v⟩
+
+def RegionSpec.fields (R : RegionSpec) : List Field :=
+  (List.range R.nrec).flatMap fun i => (List.range R.slots.length).filterMap fun s => (R.val i s).map (R.fieldAt i s)
+
+def allFields (Rs : List RegionSpec) : List Field := Rs.flatMap RegionSpec.fields
+
+/-- `Unigram` array: `UnigramValue { float prob; float backoff; uint64_t next; }`, one extra record for the end pointer -/
+def uniRegion (bt : BT) (bound unigram : Nat) : RegionSpec :=
+  let starts := childStarts bt (level bt bound 1)
+  { base := 8 * unigram, stride := 8 * Gen.C04.sizeofTrieUnigramValue, nrec := bound + 1,
+    slots := [(0, 32), (32, 32), (64, 64)],
+    val := fun i s =>
+      if s = 2 then some (starts.getD i 0 % 2^64)
+      else if i < bound then (if s = 0 then some ((valuesOf bt [i]).1 % 2^32) else some ((valuesOf bt [i]).2 % 2^32))
+      else none }
+
+/-- middle order `k` (records of `BitPackedMiddle`: word | prob31 | backoff32 | next), one extra record for the end pointer -/
+def midRegion (bt : BT) (bound k : Nat) (m : Middle) (inline : Nat) : RegionSpec :=
+  let lvl := level bt bound k
+  let starts := childStarts bt lvl
+  { base := 8 * m.base, stride := m.totalBits, nrec := lvl.length + 1,
+    slots := [(0, m.wordBits), (m.wordBits, 31), (m.wordBits + 31, 32), (m.wordBits + m.quantBits, inline)],
+    val := fun i s =>
+      if s = 3 then some (starts.getD i 0)
+      else if i < lvl.length then
+        (if s = 0 then some ((lvl.getD i []).getLast?.getD 0)
+         else if s = 1 then some ((valuesOf bt (lvl.getD i [])).1 % 2^32 % 2^31)
+         else some ((valuesOf bt (lvl.getD i [])).2))
+      else none }
+
+/-- longest order (`BitPackedLongest`: word | prob31) -/
+def longRegion (bt : BT) (bound order : Nat) (l : Longest) : RegionSpec :=
+  let lvl := level bt bound order
+  { base := 8 * l.base, stride := l.totalBits, nrec := lvl.length,
+    slots := [(0, l.wordBits), (l.wordBits, 31)],
+    val := fun i s =>
+      if s = 0 then some ((lvl.getD i []).getLast?.getD 0) else some ((valuesOf bt (lvl.getD i [])).1 % 2^32 % 2^31) }
+
+def bhikBits : Bhik → Nat
+  | .dont b => b
+  | .array b _ _ => b
+
+def regionsOf (bt : BT) (bound order : Nat) (shape : Trie) : List RegionSpec :=
+  [uniRegion bt bound shape.unigram]
+    ++ (shape.middles.zip (List.range shape.middles.length)).map (fun mi => midRegion bt bound (mi.2 + 2) mi.1 (bhikBits mi.1.bhik))
+    ++ [longRegion bt bound order shape.longest]
+
+/-- the trie (search region at offset `start`) built from a bit table: every `Write*` call of `WriteEntries` is one field -/
+def ofTable (bt : BT) (bound order start : Nat) : Trie :=
+  let shape := ofLayout 0 false false plainCfg (countsOf bt bound order) start
+  { shape with mem := orFields 0 (allFields (regionsOf bt bound order shape)) }
 
 /-- ghost child ranges of the built trie -/
 def rngOf (bt : BT) (bound : Nat) (g : List Word) : Node :=
